@@ -148,3 +148,16 @@ class lib_call:
         if issubclass(et, Exception):
             raise Violation(f"{self.sig}:raised:{et.__name__}", f"{ev!r}") from ev
         return False
+
+
+def first_bit_diff(a, b):
+    """Index tuple of the first element whose BIT PATTERN differs (a -0.0 that became +0.0 counts, NaN == NaN by bits);
+    None when the arrays are bit-identical or not comparable element-wise."""
+    import numpy as np
+
+    a, b = np.ascontiguousarray(a), np.ascontiguousarray(b)
+    if a.shape != b.shape or a.dtype != b.dtype or a.dtype.itemsize not in (1, 2, 4, 8):
+        return None
+    iv = {1: np.uint8, 2: np.uint16, 4: np.uint32, 8: np.uint64}[a.dtype.itemsize]
+    w = np.argwhere(a.view(iv) != b.view(iv))
+    return tuple(int(v) for v in w[0]) if len(w) else None
